@@ -789,6 +789,252 @@ example : ∃ m', pmultiply (K := Rat) [0, 1] [2, 3] [0, 1] (fun b i => (b : Rat
 
 end
 
+/-! ## Element operators on product spaces (lift of `C01.elem_op_correct`) -/
+
+namespace OdlModel.C01
+/-- An operand of a component loop is compatible with the output element `os` if it IS that
+element (same part list) or shares no part object with it. -/
+def PCompat (os xs : List Nat) : Prop := xs = os ∨ ∀ o ∈ os, o ∉ xs
+
+/-- Where exact arithmetic defines the quotient on a product space (cf. `DivOK`). -/
+def PDivOK {K : Type} [Field K] (op : Op) (c : K) (m : Mem K) (xs ys : List Nat) : Prop :=
+  match op with
+  | .divS | .idivS => c ≠ 0
+  | .divE | .idivE => ∀ y ∈ ys, ∀ i, m y i ≠ 0
+  | .rdivS | .rdivE => ∀ x ∈ xs, ∀ i, m x i ≠ 0
+  | _ => True
+end OdlModel.C01
+
+section
+variable {K : Type} [Field K] [DecidableEq K]
+
+/-- (helper) A compatible operand never has a part of the output at a different position. -/
+theorem C01.pcompat_cross (os xs : List Nat) (hnd : os.Nodup) (hl : xs.length = os.length)
+    (hc : PCompat os xs) :
+    ∀ i j (hi : i < os.length) (_ : j < os.length), i ≠ j → os[i] ≠ xs[j]! := by
+  intro i j hi hj hij
+  have hj' : j < xs.length := by omega
+  have e : xs[j]! = xs[j] := by simp [hj']
+  rw [e]
+  rcases hc with rfl | hd
+  · exact fun h => hij ((List.getElem_inj hnd).mp h)
+  · exact fun h => hd _ (List.getElem_mem hi) (h ▸ List.getElem_mem hj')
+
+/-- (helper) `C01.plincomb_correct` with the aliasing hypothesis in the form `PCompat`. -/
+theorem C01.plc_ok (lc : LC K) (h : LCSpec lc) (a b : K) (xs ys os : List Nat) (m : Mem K)
+    (hx : xs.length = os.length) (hy : ys.length = os.length) (hnd : os.Nodup)
+    (hcx : PCompat os xs) (hcy : PCompat os ys) :
+    ∃ m', plincomb lc xs ys os a b m = some m' ∧
+      (∀ k (hk : k < os.length) i, m' os[k] i = a * m xs[k]! i + b * m ys[k]! i) ∧
+      ∀ buf, buf ∉ os → m' buf = m buf :=
+  C01.plincomb_correct lc h a b xs ys os m hx hy hnd (fun i j hi hj hij =>
+    ⟨C01.pcompat_cross os xs hnd hx hcx i j hi hj hij,
+     C01.pcompat_cross os ys hnd hy hcy i j hi hj hij⟩)
+
+/-- (helper) `C01.pmultiply_correct` with `PCompat`. -/
+theorem C01.pmul_ok (xs ys os : List Nat) (m : Mem K)
+    (hx : xs.length = os.length) (hy : ys.length = os.length) (hnd : os.Nodup)
+    (hcx : PCompat os xs) (hcy : PCompat os ys) :
+    ∃ m', pmultiply xs ys os m = some m' ∧
+      (∀ k (hk : k < os.length) i, m' os[k] i = m xs[k]! i * m ys[k]! i) ∧
+      ∀ buf, buf ∉ os → m' buf = m buf :=
+  C01.pmultiply_correct xs ys os m hx hy hnd (fun i j hi hj hij =>
+    ⟨C01.pcompat_cross os xs hnd hx hcx i j hi hj hij,
+     C01.pcompat_cross os ys hnd hy hcy i j hi hj hij⟩)
+
+/-- (helper) `C01.pdivide_correct` with `PCompat`. -/
+theorem C01.pdiv_ok (xs ys os : List Nat) (m : Mem K)
+    (hx : xs.length = os.length) (hy : ys.length = os.length) (hnd : os.Nodup)
+    (hcx : PCompat os xs) (hcy : PCompat os ys) :
+    ∃ m', pdivide xs ys os m = some m' ∧
+      (∀ k (hk : k < os.length) i, m' os[k] i = m xs[k]! i / m ys[k]! i) ∧
+      ∀ buf, buf ∉ os → m' buf = m buf :=
+  C01.pdivide_correct xs ys os m hx hy hnd (fun i j hi hj hij =>
+    ⟨C01.pcompat_cross os xs hnd hx hcx i j hi hj hij,
+     C01.pcompat_cross os ys hnd hy hcy i j hi hj hij⟩)
+
+/-- (helper) `ProductSpace.one()` fills exactly the fresh part buffers with ones. -/
+theorem C01.pone_eq (ts : List Nat) (m : Mem K) (b : Nat) :
+    pone ts m b = if b ∈ ts then (fun _ => 1) else m b := by
+  induction ts generalizing m with
+  | nil => simp [pone]
+  | cons t ts ih =>
+    have : pone (t :: ts) m = pone ts (one t m) := rfl
+    rw [this, ih]
+    by_cases h1 : b ∈ ts <;> by_cases h2 : b = t <;> simp [h1, h2, one, Mem.write]
+
+/-- (helper) -/
+theorem C01.getElem!_mem (l : List Nat) (k : Nat) (hk : k < l.length) : l[k]! ∈ l := by
+  have : l[k]! = l[k] := by simp [hk]
+  rw [this]; exact List.getElem_mem hk
+
+/-- (helper) -/
+theorem C01.getElem!_eq (l : List Nat) (k : Nat) (hk : k < l.length) : l[k]! = l[k] := by
+  simp [hk]
+
+/-- EVERY `LinearSpaceElement` operator on a (nested) PRODUCT space — `ProductSpaceElement`
+inherits them, and `space.lincomb / multiply / divide / one() / element()` are the component
+loops of `ProductSpace` (`Op.execP`, same statements as `Op.exec`) —, over leaf spaces whose
+`_lincomb` meets its specification (tensor leaves: `C01.lincomb_correct`): for `self` with
+pairwise distinct part objects `xs`, `other` either `self` itself or an element sharing no
+part object with it (`PCompat`; elements built from shared part objects are excluded, see
+`C01.pmultiply_crosswise_fails`), and fresh pairwise distinct result parts `ts`, the call
+succeeds, returns `self` (in-place forms) or the fresh element, every part `k` of which holds
+`Op.spec` of the `k`-th parts from the PRE-state, and no other existing buffer is modified.
+Division is claimed only where `PDivOK` holds. This lifts `C01.elem_op_correct` to product
+spaces of any number of leaf components. -/
+theorem C01.pelem_op_correct (lc : LC K) (h : LCSpec lc) (op : Op) (xs ys ts : List Nat) (c : K)
+    (m : Mem K) (hxl : xs.length = ts.length) (hyl : ys.length = ts.length)
+    (hxn : xs.Nodup) (htn : ts.Nodup) (hxy : PCompat xs ys)
+    (htx : ∀ t ∈ ts, t ∉ xs ∧ t ∉ ys) (hdiv : PDivOK op c m xs ys) :
+    ∃ m' r, op.execP lc xs ys ts c m = some (m', r) ∧ r = (if op.inPlace then xs else ts) ∧
+      (∀ k (hk : k < r.length) i, m' r[k] i = op.spec c (m xs[k]! i) (m ys[k]! i)) ∧
+      (∀ buf, buf ∉ r → buf ∉ ts → m' buf = m buf) := by
+  have cTx : PCompat ts xs := Or.inr (fun o ho => (htx o ho).1)
+  have cTy : PCompat ts ys := Or.inr (fun o ho => (htx o ho).2)
+  have cTT : PCompat ts ts := Or.inl rfl
+  have cXX : PCompat xs xs := Or.inl rfl
+  have cXT : PCompat xs ts := Or.inr (fun o ho hot => (htx o hot).1 ho)
+  have hyx : ys.length = xs.length := by omega
+  have htxl : ts.length = xs.length := hxl.symm
+  -- the memory after `one()` into the fresh parts
+  have m0x : ∀ k, k < ts.length → pone ts m xs[k]! = m xs[k]! := fun k hk => by
+    rw [C01.pone_eq, if_neg]
+    exact fun hh => (htx _ hh).1 (C01.getElem!_mem xs k (by omega))
+  have m0t : ∀ k, k < ts.length → ∀ i, pone ts m ts[k]! i = 1 := fun k hk i => by
+    rw [C01.pone_eq, if_pos (C01.getElem!_mem ts k hk)]
+  have m0f : ∀ b, b ∉ ts → pone ts m b = m b := fun b hb => by rw [C01.pone_eq, if_neg hb]
+  cases op
+  case addE =>
+    obtain ⟨m', e, s, f⟩ := C01.plc_ok lc h 1 1 xs ys ts m hxl hyl htn cTx cTy
+    exact ⟨m', ts, by simp [Op.execP, e], by simp [Op.inPlace],
+      fun k hk i => by simpa [Op.spec] using s k hk i, fun b hb _ => f b hb⟩
+  case subE =>
+    obtain ⟨m', e, s, f⟩ := C01.plc_ok lc h 1 (-1) xs ys ts m hxl hyl htn cTx cTy
+    exact ⟨m', ts, by simp [Op.execP, e], by simp [Op.inPlace],
+      fun k hk i => by simpa [Op.spec] using s k hk i, fun b hb _ => f b hb⟩
+  case mulE =>
+    obtain ⟨m', e, s, f⟩ := C01.pmul_ok ys xs ts m hyl hxl htn cTy cTx
+    exact ⟨m', ts, by simp [Op.execP, e], by simp [Op.inPlace],
+      fun k hk i => by simpa [Op.spec] using s k hk i, fun b hb _ => f b hb⟩
+  case divE =>
+    obtain ⟨m', e, s, f⟩ := C01.pdiv_ok xs ys ts m hxl hyl htn cTx cTy
+    exact ⟨m', ts, by simp [Op.execP, e], by simp [Op.inPlace],
+      fun k hk i => by simpa [Op.spec] using s k hk i, fun b hb _ => f b hb⟩
+  case rsubE =>
+    obtain ⟨m', e, s, f⟩ := C01.plc_ok lc h 1 (-1) ys xs ts m hyl hxl htn cTy cTx
+    exact ⟨m', ts, by simp [Op.execP, e], by simp [Op.inPlace],
+      fun k hk i => by simpa [Op.spec] using s k hk i, fun b hb _ => f b hb⟩
+  case rdivE =>
+    obtain ⟨m', e, s, f⟩ := C01.pdiv_ok ys xs ts m hyl hxl htn cTy cTx
+    exact ⟨m', ts, by simp [Op.execP, e], by simp [Op.inPlace],
+      fun k hk i => by simpa [Op.spec] using s k hk i, fun b hb _ => f b hb⟩
+  case addS =>
+    obtain ⟨m', e, s, f⟩ := C01.plc_ok lc h 1 c xs ts ts (pone ts m) hxl rfl htn cTx cTT
+    refine ⟨m', ts, by simp [Op.execP, e], by simp [Op.inPlace], fun k hk i => ?_, fun b hb _ => ?_⟩
+    · rw [s k hk i, m0x k hk, m0t k hk i]; simp [Op.spec]
+    · rw [f b hb, m0f b hb]
+  case subS =>
+    obtain ⟨m', e, s, f⟩ := C01.plc_ok lc h 1 (-c) xs ts ts (pone ts m) hxl rfl htn cTx cTT
+    refine ⟨m', ts, by simp [Op.execP, e], by simp [Op.inPlace], fun k hk i => ?_, fun b hb _ => ?_⟩
+    · rw [s k hk i, m0x k hk, m0t k hk i]; simp [Op.spec]
+    · rw [f b hb, m0f b hb]
+  case rsubS =>
+    obtain ⟨m1, e1, s1, f1⟩ := C01.plc_ok lc h c 0 ts ts ts (pone ts m) rfl rfl htn cTT cTT
+    obtain ⟨m', e, s, f⟩ := C01.plc_ok lc h 1 (-1) ts xs ts m1 rfl hxl htn cTT cTx
+    refine ⟨m', ts, by simp [Op.execP, plincomb1, e1, e], by simp [Op.inPlace],
+      fun k hk i => ?_, fun b hb _ => ?_⟩
+    · have hxk : xs[k]! ∉ ts := fun hh => (htx _ hh).1 (C01.getElem!_mem xs k (by omega))
+      rw [s k hk i, f1 _ hxk, m0f _ hxk, C01.getElem!_eq ts k hk, s1 k hk i, m0t k hk i]
+      simp [Op.spec]
+    · rw [f b hb, f1 b hb, m0f b hb]
+  case mulS =>
+    obtain ⟨m', e, s, f⟩ := C01.plc_ok lc h c 0 xs xs ts m hxl hxl htn cTx cTx
+    exact ⟨m', ts, by simp [Op.execP, plincomb1, e], by simp [Op.inPlace],
+      fun k hk i => by simpa [Op.spec] using s k hk i, fun b hb _ => f b hb⟩
+  case divS =>
+    have hc : c ≠ 0 := hdiv
+    obtain ⟨m', e, s, f⟩ := C01.plc_ok lc h (1 / c) 0 xs xs ts m hxl hxl htn cTx cTx
+    exact ⟨m', ts, by simp only [Op.execP, plincomb1, if_neg hc, e, Option.map_some],
+      by simp [Op.inPlace], fun k hk i => by simpa [Op.spec] using s k hk i, fun b hb _ => f b hb⟩
+  case rdivS =>
+    obtain ⟨m1, e1, s1, f1⟩ := C01.plc_ok lc h c 0 ts ts ts (pone ts m) rfl rfl htn cTT cTT
+    obtain ⟨m', e, s, f⟩ := C01.pdiv_ok ts xs ts m1 rfl hxl htn cTT cTx
+    refine ⟨m', ts, by simp [Op.execP, plincomb1, e1, e], by simp [Op.inPlace],
+      fun k hk i => ?_, fun b hb _ => ?_⟩
+    · have hxk : xs[k]! ∉ ts := fun hh => (htx _ hh).1 (C01.getElem!_mem xs k (by omega))
+      rw [s k hk i, f1 _ hxk, m0f _ hxk, C01.getElem!_eq ts k hk, s1 k hk i, m0t k hk i]
+      simp [Op.spec]
+    · rw [f b hb, f1 b hb, m0f b hb]
+  case iaddE =>
+    obtain ⟨m', e, s, f⟩ := C01.plc_ok lc h 1 1 xs ys xs m rfl hyx hxn cXX hxy
+    exact ⟨m', xs, by simp [Op.execP, e], by simp [Op.inPlace],
+      fun k hk i => by simpa [Op.spec, C01.getElem!_eq xs k hk] using s k hk i, fun b hb _ => f b hb⟩
+  case isubE =>
+    obtain ⟨m', e, s, f⟩ := C01.plc_ok lc h 1 (-1) xs ys xs m rfl hyx hxn cXX hxy
+    exact ⟨m', xs, by simp [Op.execP, e], by simp [Op.inPlace],
+      fun k hk i => by simpa [Op.spec, C01.getElem!_eq xs k hk] using s k hk i, fun b hb _ => f b hb⟩
+  case imulE =>
+    obtain ⟨m', e, s, f⟩ := C01.pmul_ok ys xs xs m hyx rfl hxn hxy cXX
+    exact ⟨m', xs, by simp [Op.execP, e], by simp [Op.inPlace],
+      fun k hk i => by simpa [Op.spec, C01.getElem!_eq xs k hk] using s k hk i, fun b hb _ => f b hb⟩
+  case idivE =>
+    obtain ⟨m', e, s, f⟩ := C01.pdiv_ok xs ys xs m rfl hyx hxn cXX hxy
+    exact ⟨m', xs, by simp [Op.execP, e], by simp [Op.inPlace],
+      fun k hk i => by simpa [Op.spec, C01.getElem!_eq xs k hk] using s k hk i, fun b hb _ => f b hb⟩
+  case iaddS =>
+    obtain ⟨m', e, s, f⟩ := C01.plc_ok lc h 1 c xs ts xs (pone ts m) rfl htxl hxn cXX cXT
+    refine ⟨m', xs, by simp [Op.execP, e], by simp [Op.inPlace], fun k hk i => ?_, fun b hb hbt => ?_⟩
+    · rw [s k hk i, m0x k (by omega), m0t k (by omega) i]; simp [Op.spec]
+    · rw [f b hb, m0f b hbt]
+  case isubS =>
+    obtain ⟨m', e, s, f⟩ := C01.plc_ok lc h 1 (-c) xs ts xs (pone ts m) rfl htxl hxn cXX cXT
+    refine ⟨m', xs, by simp [Op.execP, e], by simp [Op.inPlace], fun k hk i => ?_, fun b hb hbt => ?_⟩
+    · rw [s k hk i, m0x k (by omega), m0t k (by omega) i]; simp [Op.spec]
+    · rw [f b hb, m0f b hbt]
+  case imulS =>
+    obtain ⟨m', e, s, f⟩ := C01.plc_ok lc h c 0 xs xs xs m rfl rfl hxn cXX cXX
+    exact ⟨m', xs, by simp [Op.execP, plincomb1, e], by simp [Op.inPlace],
+      fun k hk i => by simpa [Op.spec] using s k hk i, fun b hb _ => f b hb⟩
+  case idivS =>
+    have hc : c ≠ 0 := hdiv
+    obtain ⟨m', e, s, f⟩ := C01.plc_ok lc h (1 / c) 0 xs xs xs m rfl rfl hxn cXX cXX
+    exact ⟨m', xs, by simp only [Op.execP, plincomb1, if_neg hc, e, Option.map_some],
+      by simp [Op.inPlace], fun k hk i => by simpa [Op.spec] using s k hk i, fun b hb _ => f b hb⟩
+  case neg =>
+    obtain ⟨m', e, s, f⟩ := C01.plc_ok lc h (-1) 0 xs xs ts m hxl hxl htn cTx cTx
+    exact ⟨m', ts, by simp [Op.execP, plincomb1, e], by simp [Op.inPlace],
+      fun k hk i => by simpa [Op.spec] using s k hk i, fun b hb _ => f b hb⟩
+  case pos =>
+    obtain ⟨m', e, s, f⟩ := C01.plc_ok lc h 1 0 xs xs ts m hxl hxl htn cTx cTx
+    exact ⟨m', ts, by simp [Op.execP, plincomb1, e], by simp [Op.inPlace],
+      fun k hk i => by simpa [Op.spec] using s k hk i, fun b hb _ => f b hb⟩
+  case setZero =>
+    obtain ⟨m', e, s, f⟩ := C01.plc_ok lc h 0 0 xs xs xs m rfl rfl hxn cXX cXX
+    exact ⟨m', xs, by simp [Op.execP, e], by simp [Op.inPlace],
+      fun k hk i => by simpa [Op.spec] using s k hk i, fun b hb _ => f b hb⟩
+  case assign =>
+    obtain ⟨m', e, s, f⟩ := C01.plc_ok lc h 1 0 ys ys xs m hyx hyx hxn hxy hxy
+    exact ⟨m', xs, by simp [Op.execP, plincomb1, e], by simp [Op.inPlace],
+      fun k hk i => by simpa [Op.spec] using s k hk i, fun b hb _ => f b hb⟩
+
+
+/-- Non-vacuity of `C01.pelem_op_correct`: `5 - x` on a two-part element with `other is self`
+slots, through the extracted tensor `_lincomb`; every hypothesis is discharged. -/
+example : ∃ m' r, Op.execP (K := Rat) (fun A a b m => lincombImpl params 2 contigD A a b m)
+      .rsubS [0, 1] [0, 1] [2, 3] 5 (fun b i => (b : Rat) + i) = some (m', r) ∧ r = [2, 3] ∧
+      m' 3 1 = 3 := by
+  obtain ⟨m', r, e, hr, v, _⟩ := C01.pelem_op_correct (K := Rat) _
+    (C01.tensor_lincomb_spec 2 contigD) .rsubS [0, 1] [0, 1] [2, 3] 5
+    (fun b i => (b : Rat) + i) rfl rfl (by decide) (by decide) (Or.inl rfl) (by decide) trivial
+  simp [Op.inPlace] at hr
+  subst hr
+  have h1 := v 1 (by simp) 1
+  simp [Op.spec] at h1
+  exact ⟨m', _, e, rfl, by rw [h1]; norm_num⟩
+
+end
+
 /-- Sensitivity (the behaviour before the repair 60d322b): without the copy, `x *= x[0]` on
 the two-part element `([2], [3])` leaves `12` in the second part instead of `6`. -/
 theorem C01.bcast_without_copy_fails :
